@@ -83,6 +83,7 @@ fn main() {
         "c07_post_hook_journal" => c07::post_hook_journal(&v),
         "c07_pre_commit_refusal" => c07::pre_commit_refusal(&v),
         "c08_policy" => c08::policy(&v),
+        "c08_prepare" => c08::prepare(&v),
         "c08_post_commit" => c08::post_commit(&v),
         "c09_lookup" => c09::lookup(&v),
         "c09_overlay" => c09::overlay(&v),
